@@ -52,7 +52,7 @@ def run(ctx):
     for lib in libs:
         for smi in molgen.pool_for_lib(rng, lib, ctx.n(14, 120), with_bad=0.0):
             us = rng.sample(UNITS, ctx.n(5, 16))
-            jobs.append({'op': 'estimate', 'lib': lib, 'from_smiles': smi, 'Ts': [298.15, round(rng.uniform(300, 900), 1)],
+            jobs.append({'op': 'estimate', 'lib': lib, 'from_smiles': smi, 'Ts': [298.15, round(rng.uniform(300, 900), 1), rng.uniform(300, 900), 1000.0 / 3],
                          'props': ('cp', 'h', 's', 'g'), 'dim': {'units': us, 'elements': True}})
             if rng.random() < 0.5:
                 # the library object decomposes ANOTHER molecule between making the estimate and asking it
@@ -151,6 +151,9 @@ def run(ctx):
             if any('exc' in nd[p] or nd[p]['v'] is None for p in ('cp', 'h', 's')):
                 continue
             h, s, cp = nd['h']['v'], nd['s']['v'], nd['cp']['v']
+            if r['s_F'][ti].get('v') != s or ('exc' not in nd['g'] and r['g_F'][ti].get('v') != nd['g']['v']):
+                ctx.violate(key + '|flag-false-nd', 'S/R or G/RT asked with S_elements=False / 0 differs from the plain value', dict(job, T=T),
+                            {'s': s, 'g': nd['g']}, {'s_F': r['s_F'][ti], 'g_F': r['g_F'][ti]})
             first = None
             for u in job['dim']['units']:
                 d = r['dim'][u]
@@ -162,6 +165,9 @@ def run(ctx):
                     continue
                 hist['unit_evals'] += 1
                 H, G, S, Cp = (vals[k]['v'] for k in ('get_H', 'get_G', 'get_S', 'get_Cp'))
+                if vals['get_S_F']['v'] != S or vals['get_S_npF']['v'] != S or vals['get_G_F']['v'] != G:
+                    ctx.violate(key + '|flag-false|' + u, 'S or G asked with S_elements=False / 0 differs from the plain value',
+                                dict(job, T=T, unit=u), {'S': S, 'G': G}, {k: vals[k] for k in ('get_S_F', 'get_S_npF', 'get_G_F')})
                 # direct oracle: the property's equations
                 def cl(a, b):
                     return abs(a - b) <= 1e-12 * (1 + abs(a) + abs(b))
